@@ -290,6 +290,19 @@ Proof.
     + eapply lift_frame; [|exact H]. intros t Ht. cbv beta in Ht. inversion Ht; subst; apply same_frame_refl.
   - inversion H; subst. repeat split.
   - inversion H; subst. repeat split.
+  - (* block *)
+    destruct (is_disabled TBlock c); [inversion H; subst; apply same_frame_refl|].
+    destruct (overrides c) as [ovs|].
+    + match type of H with match ?X with _ => _ end = _ => destruct X; [|discriminate] end.
+      inversion H; subst; apply same_frame_refl.
+    + eapply pushed_block_frame; [|exact H]. intros c1 c2 o2 s2 H2. eapply seq_nodes_frame; [exact Hrun|exact H2].
+  - (* extends *)
+    match type of H with context [alookup ?b (e_loader E)] =>
+      destruct (alookup b (e_loader E)) as [body|]; [|inversion H; subst; apply same_frame_refl] end.
+    unfold after in H.
+    match type of H with match ?X with _ => _ end = _ => destruct X as [c1 o1 s1|] eqn:Hx; [|discriminate] end.
+    inversion H; subst c' o s. apply run_template_frame in Hx; [|exact Hrun].
+    destruct Hx as (A & B & C & D). repeat split; assumption.
 Qed.
 
 Theorem exec_frame fuel E : frame_ok (exec fuel E).
@@ -349,7 +362,7 @@ Qed.
 
 (* ------------------------------------------------------------------ assign / capture write the locals *)
 Lemma exec_assign_locals f E x e c v :
-  eval_fexpr (e_uk E) c e = Ok v ->
+  eval_fexpr (e_filters E) (e_uk E) c e = Ok v ->
   exec (S f) E (NAssign x e) c = Done (assign c x v) [] Normal.
 Proof. intro H. simpl. rewrite H. reflexivity. Qed.
 
@@ -428,12 +441,12 @@ Qed.
 (* C14 "assign always writes the template's top-level scope": an assignment wrapped in any nesting of with, for
    (over a non-empty range), if (whose condition holds) and capture blocks leaves the assigned value in the LOCALS,
    visible after all the blocks have ended *)
-Theorem assign_under_blocks uk : forall fs x lv fuel md ld c c' o s,
+Theorem assign_under_blocks uk : forall fs x lv fuel md ld ft c c' o s,
   (forall f c0, In f fs -> frame_ok_for x uk c0 f) ->
-  exec fuel (Env md uk ld) (wrap_frames fs (NAssign x (FPlain (ELit lv) []))) c = Done c' o s ->
+  exec fuel (Env md uk ld ft) (wrap_frames fs (NAssign x (FPlain (ELit lv) []))) c = Done c' o s ->
   ends_well s /\ (s = Normal -> alookup x (locals c') = Some (val_of_scalar lv)).
 Proof.
-  induction fs as [|f fs IH]; intros x lv fuel md ld c c' o s Hok H.
+  induction fs as [|f fs IH]; intros x lv fuel md ld ft c c' o s Hok H.
   - destruct fuel; [discriminate|]. simpl in H. inversion H; subst.
     split; [left; reflexivity|]. intros _. apply alookup_dict_set_same.
   - assert (Hok' : forall f0 c0, In f0 fs -> frame_ok_for x uk c0 f0) by (intros; apply Hok; right; assumption).
@@ -442,7 +455,7 @@ Proof.
     + (* with *)
       unfold lift in H. destruct (eval_kwargs uk c args []) as [nw| |]; [| |discriminate].
       * unfold after in H.
-        destruct (exec fuel (Env md uk ld) (wrap_frames fs _) (push c nw)) as [c1 o1 s1|] eqn:Hb; [|discriminate].
+        destruct (exec fuel (Env md uk ld ft) (wrap_frames fs _) (push c nw)) as [c1 o1 s1|] eqn:Hb; [|discriminate].
         apply IH in Hb; [|exact Hok']. destruct Hb as [Hw HQ].
         destruct s1; inversion H; subst; (split; [exact Hw|]); intro Hs; try discriminate.
         simpl. apply HQ. reflexivity.
@@ -459,17 +472,17 @@ Proof.
       * destruct Hl as [Hw HQ]. split; [exact Hw|]. intro Hs. simpl. apply HQ. exact Hs.
       * discriminate.
       * intros ci v i cj oj sj Hb. cbv beta in Hb.
-        destruct (exec fuel (Env md uk ld) (wrap_frames fs _) _) as [c2 o2 s2|] eqn:Hb2; [|discriminate].
+        destruct (exec fuel (Env md uk ld ft) (wrap_frames fs _) _) as [c2 o2 s2|] eqn:Hb2; [|discriminate].
         apply IH in Hb2; [|exact Hok']. destruct Hb2 as [Hw HQ].
         destruct s2; inversion Hb; subst; (split; [exact Hw|]); intro Hs; try discriminate. apply HQ. reflexivity.
     + (* if *)
       pose proof (Hok (FIf cd els) c (or_introl eq_refl) c) as Hcd. simpl in Hcd. simpl in H. rewrite Hcd in H. simpl in H.
-      destruct (exec fuel (Env md uk ld) (wrap_frames fs _) c) as [c1 o1 s1|] eqn:Hb; [|discriminate].
+      destruct (exec fuel (Env md uk ld ft) (wrap_frames fs _) c) as [c1 o1 s1|] eqn:Hb; [|discriminate].
       apply IH in Hb; [|exact Hok']. destruct Hb as [Hw HQ].
       destruct s1; inversion H; subst; (split; [exact Hw|]); intro Hs; try discriminate. apply HQ. reflexivity.
     + (* capture *)
       pose proof (Hok (FCapture y) c (or_introl eq_refl)) as Hy. simpl in Hy.
-      destruct (exec fuel (Env md uk ld) (wrap_frames fs _) c) as [c1 o1 s1|] eqn:Hb; [|discriminate].
+      destruct (exec fuel (Env md uk ld ft) (wrap_frames fs _) c) as [c1 o1 s1|] eqn:Hb; [|discriminate].
       apply IH in Hb; [|exact Hok']. destruct Hb as [Hw HQ].
       destruct s1; inversion H; subst; (split; [exact Hw|]); intro Hs; try discriminate.
       simpl. rewrite alookup_dict_set_other; [apply HQ; reflexivity|]. congruence.
@@ -523,38 +536,54 @@ Lemma str_eqb_slit_neq a b : str_eqb (slit a) (slit b) = false -> slit a <> slit
 Proof. intros H E. rewrite E, str_eqb_refl in H. discriminate. Qed.
 
 (* the size / first / last table *)
-Lemma get_item_size_list l : get_item (VList l) (KS s_size) = Some (VInt (zlen l)).
+Lemma get_item_size_list g l : get_item g (VList l) (KS s_size) = Some (VInt (zlen l)).
 Proof. reflexivity. Qed.
-Lemma get_item_size_str s : get_item (VStr s) (KS s_size) = Some (VInt (zlen s)).
+Lemma get_item_size_str g s : get_item g (VStr s) (KS s_size) = Some (VInt (zlen s)).
 Proof. reflexivity. Qed.
-Lemma get_item_size_dict d :
-  get_item (VDict d) (KS s_size) = match alookup s_size d with Some v => Some v | None => Some (VInt (zlen d)) end.
+Lemma get_item_size_dict g d :
+  get_item g (VDict d) (KS s_size) = match alookup s_size d with Some v => Some v | None => Some (VInt (zlen d)) end.
 Proof. unfold get_item. simpl. destruct (alookup s_size d); reflexivity. Qed.
-Lemma get_item_size_scalar v :
-  match v with VNil | VBool _ | VInt _ | VBuiltin => True | _ => False end -> get_item v (KS s_size) = None.
+Lemma get_item_size_scalar g v :
+  match v with VNil | VBool _ | VInt _ | VBuiltin => True | _ => False end -> get_item g v (KS s_size) = None.
 Proof. destruct v; simpl; intro H; try contradiction; reflexivity. Qed.
-Lemma get_item_first_list l : get_item (VList l) (KS s_first) = hd_error l.
+Lemma get_item_first_list g l : get_item g (VList l) (KS s_first) = hd_error l.
 Proof. destruct l; reflexivity. Qed.
-Lemma get_item_last_list l : get_item (VList l) (KS s_last) = py_index l (-1).
+Lemma get_item_last_list g l : get_item g (VList l) (KS s_last) = py_index l (-1).
 Proof. reflexivity. Qed.
-Lemma get_item_first_dict d :
-  get_item (VDict d) (KS s_first) =
+Lemma get_item_first_dict g d :
+  get_item g (VDict d) (KS s_first) =
   match alookup s_first d with
   | Some v => Some v
   | None => match d with (k0, v0) :: _ => Some (VTuple [VStr k0; v0]) | [] => None end
   end.
 Proof. unfold get_item. simpl. destruct (alookup s_first d); [reflexivity|]. destruct d as [|[k0 v0] d]; reflexivity. Qed.
-Lemma get_item_first_last_str s : get_item (VStr s) (KS s_first) = None /\ get_item (VStr s) (KS s_last) = None.
-Proof. split; reflexivity. Qed.
-Lemma get_item_index_list l z : get_item (VList l) (KI z) = py_index l z.
+(* strings: first / last are characters exactly when string_first_and_last is set; an index is a character exactly when
+   string_sequences is set; size never depends on the flags; a name never subscripts a string *)
+Lemma get_item_first_str g s :
+  get_item g (VStr s) (KS s_first) = if fl_first_last g then option_map char_val (hd_error s) else None.
 Proof. reflexivity. Qed.
-Lemma get_item_name_dict d s :
+Lemma get_item_last_str g s :
+  get_item g (VStr s) (KS s_last) = if fl_first_last g then option_map char_val (py_index s (-1)) else None.
+Proof. reflexivity. Qed.
+Lemma get_item_index_str g s z :
+  get_item g (VStr s) (KI z) = if fl_sequences g then option_map char_val (py_index s z) else None.
+Proof. reflexivity. Qed.
+Lemma get_item_first_last_str s : get_item default_flags (VStr s) (KS s_first) = None /\ get_item default_flags (VStr s) (KS s_last) = None.
+Proof. split; reflexivity. Qed.
+(* lists and dicts ignore the flags altogether *)
+Lemma get_item_list_flags g g' l k : get_item g (VList l) k = get_item g' (VList l) k.
+Proof. destruct k as [s| |]; reflexivity. Qed.
+Lemma get_item_dict_flags g g' d k : get_item g (VDict d) k = get_item g' (VDict d) k.
+Proof. destruct k as [s| |]; reflexivity. Qed.
+Lemma get_item_index_list g l z : get_item g (VList l) (KI z) = py_index l z.
+Proof. reflexivity. Qed.
+Lemma get_item_name_dict g d s :
   str_eqb s s_size = false -> str_eqb s s_first = false -> str_eqb s s_last = false ->
-  get_item (VDict d) (KS s) = alookup s d.
+  get_item g (VDict d) (KS s) = alookup s d.
 Proof. intros A B C. unfold get_item. rewrite A, B, C. reflexivity. Qed.
 
 (* anything missing resolves to the undefined value and, with the default undefined type, never to an error *)
-Lemma walk_default_total obj ks : exists v, walk UDefault obj ks = Ok v.
+Lemma walk_default_total g obj ks : exists v, walk g UDefault obj ks = Ok v.
 Proof.
   revert obj. induction ks as [|k ks IH]; intro obj; simpl; [eauto|].
   unfold step_item. simpl. rewrite andb_false_r.
@@ -586,8 +615,8 @@ Proof.
 Qed.
 
 (* a path that leaves the data at some segment is undefined from there on *)
-Lemma walk_missing_segment uk obj k ks :
-  step_item uk obj k = SMissing -> walk uk obj (k :: ks) = Ok VUndef.
+Lemma walk_missing_segment g uk obj k ks :
+  step_item g uk obj k = SMissing -> walk g uk obj (k :: ks) = Ok VUndef.
 Proof. intro H. simpl. rewrite H. reflexivity. Qed.
 
 (* ------------------------------------------------------------------ include shares the caller's scope *)
